@@ -50,7 +50,8 @@ Definition wit_ok : value :=
     (VObj (wm1, [lit "Outer"; lit "Inner"]) [(lit "v", VFloat fl_nan)])
     (VEnum (wm1, [lit "Color"]) (lit "RED")) fixed
     (VList [VDecimal (lit "NaN"); VQName (lit "{u}l"); VStr (lit "a'b""c\" ++ [10%N]); VFloat fl_neg_inf;
-            VTuple []; VTuple [VInt 1; VStr (lit "x")]; VSet true [VInt 3]; VDuration (lit "P1Y"); VDict [(VStr (lit "k"), VBytes BHex [0%N; 39%N])]])
+            VTuple []; VTuple [VInt 1; VStr (lit "x")]; VSet true [VInt 3]; VDuration (lit "P1Y");
+            VStd SDateTime [2020; 1; 2; 3; 4; 5; 0]; VDict [(VStr (lit "k"), VBytes BHex [0%N; 39%N])]])
     VNone.
 
 (* Outer(any=datetime.date(2020, 1, 2)) *)
@@ -60,9 +61,8 @@ Definition witnesses : list value :=
   [wit_tuple; wit_enum; wit_collision; wit_qname; wit_init; wit_std; wit_ok].
 
 (* the other clauses of the guard hold: each witness isolates one clause *)
-Definition only_imports W v := negb (g_imports W v) && g_init W v && g_std W v.
-Definition only_init W v := g_imports W v && negb (g_init W v) && g_std W v.
-Definition only_std W v := g_imports W v && g_init W v && negb (g_std W v).
+Definition only_imports W v := negb (g_imports W v) && g_init W v.
+Definition only_init W v := g_imports W v && negb (g_init W v).
 
 (* non-empty tuples written as lists: repaired in /repo a2ce0be; kept as a regression witness *)
 Lemma array_fixed : wf W_wit wit_tuple = true /\ guard W_wit wit_tuple = true /\ roundtrip W_wit wit_tuple = true.
@@ -79,13 +79,8 @@ Proof. vm_compute. auto 10. Qed.
 Lemma init_false_refuted : wf W_wit wit_init = true /\ only_init W_wit wit_init = true /\ roundtrip W_wit wit_init = false.
 Proof. vm_compute. auto 10. Qed.
 
-Lemma std_refuted : wf W_wit wit_std = true /\ only_std W_wit wit_std = true /\ roundtrip W_wit wit_std = false.
-Proof. vm_compute. auto 10. Qed.
-(* the module name datetime is needed, only the class name date is imported *)
-Lemma imports_sufficient_std_refuted :
-  wf W_wit wit_std = true /\
-  In (lit "datetime") (heads (repr W_wit wit_std)) /\ is_builtin (lit "datetime") = false /\
-  existsb (fun p => str_eqb (snd p) (lit "datetime")) (imports W_wit wit_std) = false.
+(* stdlib datetime values without `import datetime`: repaired in /repo db048b1; kept as a regression witness *)
+Lemma std_fixed : wf W_wit wit_std = true /\ guard W_wit wit_std = true /\ roundtrip W_wit wit_std = true.
 Proof. vm_compute. auto 10. Qed.
 
 Lemma guard_nonvacuous : wf W_wit wit_ok = true /\ guard W_wit wit_ok = true /\ roundtrip W_wit wit_ok = true.
